@@ -93,6 +93,9 @@ def run_for(prop: Optional[str], jobs: int = 16, strict: bool = True) -> dict:
             summary["faults_applied"] += 1
             if outcome == "reported":
                 summary["faults_reported"] += 1
+            elif outcome == "analysis-error":
+                # not a silent pass: the analyser refused the variant (exit 2 territory); recorded, not fatal
+                summary.setdefault("faults_refused", []).append(f"{mid}/{pr}")
             else:
                 summary["missed"].append(f"{mid}/{pr}:{outcome}")
                 problems.append(f"seeded fault {mid} ({pr}) was not reported as a violation: {outcome} {info[:1]}")
